@@ -12,6 +12,7 @@ func handleClientStream(progress *api.ReadProgress, tcpID *api.TcpID, counterPai
 	counterPair.Request++
 	requestCounter := counterPair.Request
 	counterPair.Unlock()
+	verifYield("redis.counter")
 
 	ident := fmt.Sprintf(
 		"%s_%s_%s_%s_%d",
@@ -41,6 +42,7 @@ func handleServerStream(progress *api.ReadProgress, tcpID *api.TcpID, counterPai
 	counterPair.Response++
 	responseCounter := counterPair.Response
 	counterPair.Unlock()
+	verifYield("redis.counter")
 
 	ident := fmt.Sprintf(
 		"%s_%s_%s_%s_%d",
